@@ -10,7 +10,7 @@ import ast
 from typing import Dict
 
 from ..cfg import CFG
-from ..model import FuncInfo, Repo, dotted, unparse, walk_no_nested
+from ..model import AnalysisError, FuncInfo, Repo, dotted, unparse, walk_no_nested
 from ..report import Check
 
 
@@ -162,6 +162,7 @@ def check(chk: Check) -> None:
                        "%s binds %s to a one-shot iterator (%s) and uses it %d times: every use after the "
                        "first sees it exhausted (empty)" % (q, nm_, unparse(x.value)[:50], len(loads)), 1)
     _optional_scalars(chk, idx)
+    one_shot_parameters(chk, idx)
 
 
 _FALSY_SCALARS = ("int", "str", "bytes", "float", "bool", "bytearray", "List", "list", "Dict", "dict", "Set",
@@ -220,3 +221,123 @@ def _optional_scalars(chk: Check, idx) -> None:
                     chk.ob("R00.5", "%s:truthiness-of-optional(%s)" % (q, t.id), False, f.loc(n),
                            "%s tests its parameter %s: %s by truthiness (%s): 0 / '' / an empty container is "
                            "a legal argument and is treated like None" % (q, t.id, opt[t.id], unparse(n)[:50]), 1)
+
+
+_ONE_SHOT_ANN = ("Iterable", "Iterator", "Generator", "DictLike")
+_RE_ITERABLE_ANN = ("Collection", "Sequence", "List", "Set", "Dict", "Mapping", "Tuple", "FrozenSet", "Container")
+
+
+def one_shot_parameters(chk: Check, idx) -> None:
+    """R00.6: an argument declared Iterable (or DictLike) may be a generator: it can be walked
+    once.  A function that iterates it, or hands it to a call, twice along one path sees it empty
+    the second time (a validation loop in front of the real consumer empties it)."""
+    from ..cfg import CFG
+    chk.rule("R00.6", "a parameter declared Iterable/Iterator/DictLike is consumed at most once along any path "
+                      "(unless it is first materialised and rebound)")
+    for q in sorted(chk.functions):
+        f = idx.get(q)
+        if f is None:
+            continue
+        a = f.node.args
+        plain = {}
+        for x in a.posonlyargs + a.args + a.kwonlyargs:
+            if x.annotation is None:
+                continue
+            s = unparse(x.annotation)
+            outer = s.replace("typing.", "").replace("Optional[", "").lstrip('"\'')
+            if outer.startswith(_ONE_SHOT_ANN):
+                plain[x.arg] = s
+        elementwise = None
+        if a.vararg is not None and a.vararg.annotation is not None and \
+                unparse(a.vararg.annotation).replace("typing.", "").lstrip('"\'').startswith(_ONE_SHOT_ANN):
+            elementwise = a.vararg.arg
+        if not plain and elementwise is None:
+            continue
+        stored = {n.id for n in walk_no_nested(f.node) if isinstance(n, ast.Name) and not isinstance(n.ctx, ast.Load)}
+        cfg = None
+        for p in sorted(plain):
+            if p in stored:
+                continue            # rebound (materialised) somewhere: not followed
+            events = []
+            for n in walk_no_nested(f.node):
+                if isinstance(n, (ast.For, ast.comprehension)) and isinstance(n.iter, ast.Name) and n.iter.id == p:
+                    events.append(n.iter)
+                elif isinstance(n, ast.YieldFrom) and isinstance(n.value, ast.Name) and n.value.id == p:
+                    events.append(n.value)
+                elif isinstance(n, ast.Call) and not (isinstance(n.func, ast.Name) and n.func.id in (
+                        "isinstance", "len", "iter", "id", "type", "repr", "hasattr", "bool")):
+                    for arg in list(n.args) + [k.value for k in n.keywords]:
+                        v = arg.value if isinstance(arg, ast.Starred) else arg
+                        if isinstance(v, ast.Name) and v.id == p:
+                            events.append(v)
+            if len(events) < 2:
+                continue
+            if cfg is None:
+                cfg = CFG(f.node)
+            pair = _sequential_pair(cfg, events)
+            chk.ob("R00.6", "%s:consumed-once(%s)" % (q, p), pair is None, f.loc(pair[1]) if pair else f.loc(),
+                   "%s walks its parameter %s: %s twice along one path (%s, then %s): a generator argument is "
+                   "empty the second time" % (q, p, plain[p], _ctx(pair[0]) if pair else "", _ctx(pair[1]) if pair else ""), 2)
+        if elementwise is not None and elementwise not in stored:
+            p = elementwise
+            events = []
+            for n in walk_no_nested(f.node):
+                if isinstance(n, ast.Call):
+                    for arg in n.args:
+                        if isinstance(arg, ast.Starred) and isinstance(arg.value, ast.Name) and arg.value.id == p:
+                            events.append(arg.value)
+                        elif isinstance(arg, ast.Name) and arg.id == p and not (
+                                isinstance(n.func, ast.Name) and n.func.id in ("len", "isinstance", "bool", "iter", "enumerate")):
+                            events.append(arg)
+                if isinstance(n, (ast.For, ast.comprehension)) and isinstance(n.iter, ast.Name) and n.iter.id == p:
+                    # for x in args: ... x is consumed if iterated / passed on inside
+                    tnames = {t.id for t in ast.walk(n.target) if isinstance(t, ast.Name)}
+                    scope = n if isinstance(n, ast.For) else getattr(n, "_parent", None)
+                    used = False
+                    for m in ast.walk(scope) if scope is not None else []:
+                        if isinstance(m, (ast.For, ast.comprehension)) and isinstance(m.iter, ast.Name) and m.iter.id in tnames:
+                            used = True
+                        if isinstance(m, ast.Call) and any(isinstance(z, ast.Name) and z.id in tnames for z in m.args) \
+                                and not (isinstance(m.func, ast.Name) and m.func.id in ("isinstance", "len", "type")):
+                            used = True
+                    if used:
+                        events.append(n.iter)
+            if len(events) >= 2:
+                if cfg is None:
+                    cfg = CFG(f.node)
+                pair = _sequential_pair(cfg, events)
+                chk.ob("R00.6", "%s:elements-consumed-once(*%s)" % (q, p), pair is None,
+                       f.loc(pair[1]) if pair else f.loc(),
+                       "%s walks the iterables passed as *%s twice along one path (%s, then %s): a generator "
+                       "argument is empty the second time" % (q, p, _ctx(pair[0]) if pair else "", _ctx(pair[1]) if pair else ""), 2)
+
+
+def _ctx(n: ast.AST) -> str:
+    cur = n
+    for _ in range(3):
+        par = getattr(cur, "_parent", None)
+        if par is None or isinstance(par, ast.stmt):
+            cur = par if par is not None else cur
+            break
+        cur = par
+    return unparse(cur).split("\n")[0][:50]
+
+
+def _sequential_pair(cfg, events):
+    nodes = []
+    for e in events:
+        try:
+            nodes.append((cfg.node_of(e), e))
+        except AnalysisError:
+            continue
+    for i, (n1, e1) in enumerate(nodes):
+        for j, (n2, e2) in enumerate(nodes):
+            if i == j:
+                continue
+            if n1 == n2:
+                if i < j:
+                    return (e1, e2)
+                continue
+            if n2 in cfg.reachable(n1) and not (n1 in cfg.reachable(n2) and i > j):
+                return (e1, e2)
+    return None
